@@ -8,6 +8,7 @@ MC_Reqs == { [n |-> 1, avail |-> 1, hdr |-> <<"A">>, tag |-> 1],
              [n |-> 2, avail |-> 3, hdr |-> <<"x", "A">>, tag |-> 2],
              [n |-> 3, avail |-> 3, hdr |-> <<"x", "y", "B">>, tag |-> 3],   \* over the TTL of 2
              [n |-> 1, avail |-> 0, hdr |-> <<>>, tag |-> 4] }                \* garbled
+MC_RQ == {0, 2}
 Bound == Len(arrived) <= 3 /\ Len(sent) <= 3
 Bound2 == Len(arrived) <= 2 /\ Len(sent) <= 2
 Sym == Permutations({p1, p2}) \cup Permutations({t1, t2})
